@@ -244,6 +244,11 @@ def run_case(case, ctx):
                         bound = C_AFF * EPS * L * (abs(A[i, j]) + mag * EPS)
                     else:
                         bound = C_AFF * EPS * L * (mag + abs(A[i, j]) * h[i, j]) / h[i, j]
+                    if case['step']['kind'] in ('min', 'max'):
+                        # a user-supplied sequence: the rule and the extrapolation combine quotients taken at steps down to
+                        # ratio**-(order + 2) of the reported final step, each with its own rounding error; the returned
+                        # estimate accounts for them
+                        bound += 300 * est[i, j]
                     ctx.count('affine_entries_asserted')
                 else:
                     M = float(np.exp(np.sum(np.abs(B[i]) * (np.abs(x) + h[i, j]))))
